@@ -351,7 +351,7 @@ func c11Gen(t *rapid.T) c11Case {
 			in.Key = rapid.SampledFrom([]string{"X-A", "Content-Type", "Location"}).Draw(t, "hk")
 			in.Val = rapid.StringMatching(`[a-z/]{1,6}`).Draw(t, "hv")
 		case "wh":
-			in.Op, in.Code = "wh", rapid.SampledFrom([]int{200, 204, 302, 307, 404, 500}).Draw(t, "code")
+			in.Op, in.Code = "wh", rapid.SampledFrom([]int{200, 204, 302, 307, 404, 500, 200, 302, 100, 102, 103}).Draw(t, "code")
 		case "write":
 			in.Op, in.Val = "write", rapid.StringMatching(`[a-z]{0,5}`).Draw(t, "body")
 		case "read":
